@@ -28,7 +28,8 @@ fn small_or_rand<F: PrimeField>(rng: &mut impl RngCore) -> F {
 }
 
 fn rand_lc<F: PrimeField>(label: &str, rng: &mut impl RngCore) -> LinearCombination<F> {
-    let nterms = (rng.next_u32() % 5) as usize;
+    // mostly 0..4 terms; one operand in thirty is long (up to 400 terms with repeated labels and constants)
+    let nterms = if rng.next_u32() % 30 == 0 { 20 + (rng.next_u32() % 380) as usize } else { (rng.next_u32() % 5) as usize };
     let mut lc = LinearCombination::empty(label);
     for _ in 0..nterms {
         let c = small_or_rand::<F>(rng);
